@@ -350,9 +350,9 @@ inline int finish(const Args& a, const Result& r, Evidence ev, bool confirm = tr
 			++nknown; continue;
 		}
 		if (idx >= 10) { ++nviol; continue; }
-		std::string path = dir + "/build/replay/" + a.prop + "-" + a.tier + "-" + std::to_string(idx++) + ".json";
+		std::string path = dir + "/build/replay/" + a.prop + "-" + a.tier + (a.get("part").empty() ? "" : "-" + a.get("part")) + "-" + std::to_string(idx++) + ".json";
 		Json rp = v.replay; if (rp.t != Json::OBJ) rp = Json::obj();
-		rp.set("property", a.prop).set("key", v.key).set("what", v.what);
+		rp.set("property", a.prop).set("key", v.key).set("what", v.what); if (!a.get("part").empty()) rp.set("part", a.get("part"));
 		{ std::ofstream f(path); f << rp.dump() << "\n"; }
 		if (confirm) {
 			int rc = replay_exit(a, path);
@@ -374,7 +374,9 @@ inline int finish(const Args& a, const Result& r, Evidence ev, bool confirm = tr
 	Json as = Json::arr(); for (auto& s : ev.assumptions) as.push(s); e.set("assumptions", as);
 	e.set("wall_s", now() - a.t0).set("violations", nviol).set("known_findings_seen", nknown);
 	if (nviol) e.set("violation_list", vlist);
-	{ std::ofstream f(dir + "/evidence/" + a.prop + ".json"); f << e.dump() << "\n"; }
+	std::string part = a.get("part");
+	if (!part.empty()) { mkdirs(dir + "/build/parts"); std::ofstream f(dir + "/build/parts/" + a.prop + "." + part + ".json"); f << e.dump() << "\n"; }
+	else { std::ofstream f(dir + "/evidence/" + a.prop + ".json"); f << e.dump() << "\n"; }
 	fflush(stdout);
 	if (nflaky && !nviol) return 2;
 	return nviol ? 1 : 0;
